@@ -19,11 +19,21 @@ def sealed_world(rnd, nested_p=0.4, multi_gen_p=0.4, patterns_p=0.25):
     pats = []
     if rnd.random() < patterns_p:
         pats = rnd.sample(["*.tmp", "*.bak", "tmp", "A", "*.mov", "keep.bak", "s/"], rnd.randint(1, 2))
+        if rnd.random() < 0.4:
+            # order matters: a negation re-includes what an earlier pattern excluded
+            pats = list(rnd.choice([["*.txt", "!a.txt"], ["*.tmp", "!data.tmp"], ["*.bak", "!keep.bak"], ["*.mov", "!A001.mov"], ["d*", "!d e.txt"], ["*.txt", "!*.txt"]]))
     if rnd.random() < nested_p:
         cands = [d for d in sorted(fs.dirs) if d]
         rnd.shuffle(cands)
         for d in cands[: rnd.randint(1, 2)]:
             ops.append({"op": "create", "at": d, "h": gen.fmt_subset(rnd, (1, 2)), "now": now()})
+            if rnd.random() < 0.6:
+                # a sibling whose name merely STARTS like the nested history's folder belongs to the parent
+                sib = d + rnd.choice(["_proxy", "2", " copy"])
+                if sib not in fs.dirs and sib not in fs.files:
+                    fs.add_dir(sib)
+                    fs.files[sib + "/p.txt"] = "sibling of " + d
+        tree = gen.tree_dict(fs)
     first = {"op": "create", "at": "", "h": gen.fmt_subset(rnd, (1, 2)), "now": now()}
     if pats:
         first["i"] = pats
